@@ -27,7 +27,7 @@ ASSUMPTIONS = [a for a in C04.ASSUMPTIONS if "quiescent" not in a] + [
     "a cancelled or never-started fetch takes nothing from the scripted broker (brokers that consume a message and are then cancelled before yielding are outside)",
 ]
 TRUSTED = C04.TRUSTED
-REQUIRED_COVERS = ["mid_chain_event", "malformed", "malformed_raw", "unknown", "valid", "stop_in_flight", "quota", "stream_end", "unlimited"]
+REQUIRED_COVERS = ["late_registration_known", "late_registration_unknown", "mid_chain_event", "malformed", "malformed_raw", "unknown", "valid", "stop_in_flight", "quota", "stream_end", "unlimited"]
 budget = C04.budget
 coverage_extra = C04.coverage_extra
 
@@ -46,6 +46,9 @@ def cases(tier: str) -> List[Any]:
         for k0 in ("valid", "malformed", "unknown", "malformed_raw"):
             for prefix in itertools.product(range(3), repeat=depth):
                 out.append({"M": M, "K": K, "cfg": cfg, "k0": k0, "prefix": list(prefix)})
+    # a task that becomes known while the worker runs: messages before the registration are skipped, later ones are executed
+    for first in range(4):
+        out.append({"M": 3, "K": 6 if tier == "quick" else 7, "cfg": "A", "k0": "late_task", "prefix": [first], "late": True})
     # external events landing between two loop iterations (not only when the loop is idle)
     for cfg in ("A", "AN", "noneA", "end"):
         for k0 in ("valid",) if tier == "quick" else ("valid", "malformed_raw"):
@@ -56,7 +59,10 @@ def cases(tier: str) -> List[Any]:
 
 def harness(c: sym.Ctx, case: Dict[str, Any]) -> None:
     M = case["M"]
-    kinds = [case["k0"]] + [c.choose(("valid", "unknown", "malformed_raw") if case["M"] <= 3 and not case.get("preempt") else ("valid", "malformed_raw", "empty"), f"kind{k}") for k in range(1, M)]
+    if case.get("late"):
+        kinds = ["late_task", "late_task", c.choose(("late_task", "valid"), "kind2")]
+    else:
+        kinds = [case["k0"]] + [c.choose(("valid", "unknown", "malformed_raw") if case["M"] <= 3 and not case.get("preempt") else ("valid", "malformed_raw", "empty"), f"kind{k}") for k in range(1, M)]
     cfg = case["cfg"]
     spec = {"M": M, "kinds": kinds, "outcomes": ["return"] * M, "A": "none" if cfg == "noneA" else "sym", "P": "sym",
             "N": "sym" if cfg == "AN" else "none", "wtt": None, "K": case["K"], "prefix": case["prefix"], "stream_end": cfg == "end", "preempt": case.get("preempt", 0)}
@@ -92,6 +98,12 @@ def check_exactly_once(c: sym.Ctx, r: Any, kinds: List[str]) -> None:
         c.check(begun == 1 and ended == 1, "taken_message_processed_exactly_once", msg=i, kind=kinds[i], begun=begun, ended=ended,
                 taken=taken, A=r.A, P=r.P, N=r.N)
         want = 1 if kinds[i] == "valid" else 0
+        if kinds[i] == "late_task":
+            # known iff the task had been registered when this message's processing began
+            reg = next((k for k, e in enumerate(ev) if e == ("env", "register_late")), None)
+            beg = next((k for k, e in enumerate(ev) if e[0] == "cb_begin" and e[1] == i), None)
+            want = 1 if (reg is not None and beg is not None and beg > reg) else 0
+            c.cover("late_registration_" + ("known" if want else "unknown"))
         c.check(runs == want, "task_function_invoked_exactly_once_for_valid_messages", msg=i, kind=kinds[i], runs=runs, A=r.A, P=r.P, N=r.N)
     ghosts = [e for e in ev if e[0] in ("cb_begin", "task_start") and e[1] not in taken]
     c.check(not ghosts, "nothing_processed_that_was_not_taken", ghosts=ghosts)
